@@ -133,3 +133,21 @@ From V Require Import SamlSchema P_SamlSchema.
 Theorem C15_vocabulary_is_saml_core : generated_vocabulary = saml_vocabulary.
 Proof. exact vocabulary_is_saml. Qed.
 Print Assumptions C15_vocabulary_is_saml_core.
+
+(* ---- source tie (DESIGN.md 2a): the three builders as TRANSLATED from /repo on this run — construction of the element tree
+   through pointers, one CreateAttr / CreateElement / SetText at a time — yield, for every configuration, clock, random id,
+   argument and behaviour of the signing step, exactly the element trees [build_*] the theorems above are about ---- *)
+From V Require Import GenPrelude GenPreludeB GenBuild P_GenBuild.
+Theorem C15_source_builders_are_the_model : forall (sign_el : node -> res node) cfg now id,
+  (forall incl, G_buildAuthnRequest sign_el cfg now incl id
+                = PVal (built sign_el (b_sign_authn_requests cfg && incl) (build_authn_request cfg id now))) /\
+  (forall incl name_id session_index, G_buildLogoutRequest sign_el cfg now incl name_id session_index id
+                = PVal (built sign_el incl (build_logout_request cfg id now name_id session_index))) /\
+  (forall incl status_code req_id, G_buildLogoutResponse sign_el cfg now status_code req_id incl id
+                = PVal (built sign_el incl (build_logout_response cfg id now status_code req_id))).
+Proof.
+  exact (fun s cfg now id => conj (fun incl => G_buildAuthnRequest_is_model s cfg now incl id)
+          (conj (fun incl n si => G_buildLogoutRequest_is_model s cfg now incl n si id)
+                (fun incl sc rq => G_buildLogoutResponse_is_model s cfg now sc rq incl id))).
+Qed.
+Print Assumptions C15_source_builders_are_the_model.
